@@ -111,7 +111,7 @@ Example ex_text_hypotheses :
   codec_ok (B "utf-8") /\ c_enc ascii (tx "utf-8") = Some (B "utf-8") /\ tx "hello" <> [] /\
   (exists x, py_encode (tx "hello") (B "utf-8") = Ok x) /\ RC.le_arg WNone /\ RC.indent_arg (WInt 4).
 Proof.
-  split; [apply (RoundTripCodecUtf.codec_ok_utf8 (B "utf-8") utf8); vm_compute; reflexivity|].
+  split; [apply (RoundTripCodecUtf.codec_ok_utf8 (B "utf-8") utf8); reflexivity|].
   split; [vm_compute; reflexivity|]. split; [discriminate|]. split; [eexists; vm_compute; reflexivity|].
   split; constructor. discriminate.
 Qed.
